@@ -185,105 +185,122 @@ def eval_closure(prog, cl, choose, call_hook=None):
     return None
 
 
+def whitelist_worlds(prog):
+    """the commits the whitelist predicate is evaluated on: update path present / absent x up to two queued proposals, each of any
+    Proposal kind; an Update proposal additionally carries its sender (any Sender kind; a Member sender is the committer or another leaf)"""
+    prop = [a for p, a in prog.adts.items() if last_seg(p) == "Proposal" and a["kind"] == "enum" and p.startswith("openmls")][0]
+    snd = [a for p, a in prog.adts.items() if last_seg(p) == "Sender" and p.startswith("openmls")][0]
+    elems = []
+    for v in prop["variants"]:
+        if v["name"] == "Update":
+            for sv in snd["variants"]:
+                if sv["name"] == "Member":
+                    elems.append(("Update", "Member", "own"))
+                    elems.append(("Update", "Member", "other"))
+                else:
+                    elems.append(("Update", sv["name"], "n/a"))
+        else:
+            elems.append((v["name"], "Member", "own"))
+    lists = [()] + [(e,) for e in elems] + [(e1, e2) for e1 in elems for e2 in elems]
+    return [(path, q) for path in (0, 1) for q in lists]
+
+
+def whitelist_spec(path, queued):
+    ups = [e for e in queued if e[0] == "Update"]
+    return int(bool(path or ups) and all(e[0] == "Update" for e in queued) and all(e[1] == "Member" and e[2] == "own" for e in ups))
+
+
+def eval_whitelist(prog, f, path, queued):
+    """run the predicate on one symbolic commit; iterators over the commit's proposals yield the world's elements (works for
+    `.all(|p| ..)` closures and for explicit loops alike)"""
+    pos = {}
+    sc_param = [l for l in range(1, f.nargs + 1) if "StagedCommit" in f.locals[l]]
+    idx_param = [l for l in range(1, f.nargs + 1) if "LeafNodeIndex" in f.locals[l]]
+
+    def elems_of(kind):
+        return [e for e in queued if kind == "queued" or e[0] == {"update": "Update", "add": "Add", "remove": "Remove"}.get(kind, "?")]
+
+    def hook(cal, args):
+        nm = cal.get("name")
+        adt = last_seg(cal.get("self_adt"))
+        a0 = args[0] if args else None
+        if adt == "StagedCommit":
+            if nm == "update_path_leaf_node":
+                return ("variant", "Option", "Some" if path else "None", (("leafnode",),) if path else ())
+            if nm in ("queued_proposals", "update_proposals", "add_proposals", "remove_proposals"):
+                key = (id(cal), len(pos))
+                pos[key] = 0
+                return ("iter", key, tuple(("qp",) + e for e in elems_of(nm.split("_")[0])))
+            return None
+        if nm in ("into_iter", "iter", "by_ref") and a0 is not None and a0[0] == "iter":
+            return a0
+        if nm == "next" and a0 is not None and a0[0] == "iter":
+            i = pos[a0[1]]
+            pos[a0[1]] = i + 1
+            return ("variant", "Option", "Some", (a0[2][i],)) if i < len(a0[2]) else ("variant", "Option", "None", ())
+        if nm in ("all", "any") and a0 is not None and a0[0] == "iter" and len(args) == 2:
+            i = pos[a0[1]]
+            pos[a0[1]] = len(a0[2])
+            vals = []
+            for e in a0[2][i:]:
+                r = ev._call_closure(args[1], [e])
+                if not (r and r[0] == "int"):
+                    raise dtable.Undecided("closure result %r" % (r,))
+                vals.append(r[1])
+            return ("int", int(all(vals) if nm == "all" else any(vals)))
+        if nm == "count" and a0 is not None and a0[0] == "iter":
+            return ("int", len(a0[2]) - pos[a0[1]])
+        if nm in ("is_none", "is_some") and a0 is not None and a0[0] == "variant" and a0[1] == "Option":
+            return ("int", int((a0[2] == "None") == (nm == "is_none")))
+        if a0 is not None and a0[0] == "qp":
+            if nm == "proposal":
+                return ("variant", "Proposal", a0[1], (("payload",),))
+            if nm == "sender":
+                return ("variant", "Sender", a0[2], (("leaf", a0[3]),))
+        if nm in ("eq", "ne") and len(args) == 2 and all(x[0] == "leaf" for x in args):
+            r = int(args[0] == args[1])
+            return ("int", r if nm == "eq" else 1 - r)
+        return None
+    ev = dtable.Evaluator(f, lambda v: None, lambda a, b: None, lambda bb, v, t: None, call_hook=hook, prog=prog, max_steps=4000)
+    env = {l: ("param", "arg%d" % l, l) for l in range(1, f.nargs + 1)}
+    for l in idx_param:
+        env[l] = ("leaf", "own")
+    res = ev.run(env)
+    return res[1] if res and res[0] == "int" else None
+
+
 def clause_whitelist(prog, rep, pred_fns):
     rep.floor("non-admin-whitelist", "self-update whitelist predicate", len(pred_fns), 1)
     for f in pred_fns[:1]:
-        # (a) closure over queued_proposals accepts exactly Proposal::Update
-        cls = [prog.fns[s["closure"]] for bb, s in f.stmts() if s.get("k") == "closure" and s["closure"] in prog.fns]
-        prop_adt = [a for p, a in prog.adts.items() if last_seg(p) == "Proposal" and a["kind"] == "enum" and p.startswith("openmls")]
-        okA = False
-        detail = ""
-        for cl in cls:
-            if not any(s.get("k") == "discr" and last_seg(s.get("adt")) == "Proposal" for _, s in cl.stmts()):
-                continue
-            accepted = []
+        worlds = whitelist_worlds(prog)
+        rows, bad = {}, None
+        for path, q in worlds:
             try:
-                for v in prop_adt[0]["variants"]:
-                    r = eval_closure(prog, cl, lambda adt, v=v: v["name"] if adt == "Proposal" else None)
-                    if r == 1:
-                        accepted.append(v["name"])
-                    elif r is None:
-                        accepted.append("?" + v["name"])
+                rows[(path, q)] = eval_whitelist(prog, f, path, q)
             except dtable.Undecided as e:
-                accepted = ["undecided: %s" % e]
-            detail = "accepted proposal kinds: %s" % accepted
-            if accepted == ["Update"]:
-                okA = True
-        rep.check(okA, "non-admin-whitelist", "proposal-kinds", "a non-admin commit may only carry Update proposals (%s)" % detail,
-                  "the non-admin whitelist accepts more than Proposal::Update (%s)" % detail, f.loc())
-        # (b) closure over update_proposals: Sender::Member(idx) && idx == committer
-        okB = False
-        for cl in cls:
-            if not any(s.get("k") == "discr" and last_seg(s.get("adt")) == "Sender" for _, s in cl.stmts()):
-                continue
-            snd = [a for p, a in prog.adts.items() if last_seg(p) == "Sender" and p.startswith("openmls")][0]
-            table = {}
-            try:
-                for v in snd["variants"]:
-                    for eq in (0, 1):
-                        hook = lambda cal, args, eq=eq: ("int", eq) if cal.get("name") in ("eq",) else (("int", 1 - eq) if cal.get("name") == "ne" else None)
-                        table[(v["name"], eq)] = eval_closure(prog, cl, lambda adt, v=v: v["name"] if adt == "Sender" else None, call_hook=hook)
-            except dtable.Undecided as e:
-                table = {"undecided": str(e)}
-            want = {(v["name"], eq): int(v["name"] == "Member" and eq == 1) for v in snd["variants"] for eq in (0, 1)}
-            # the equality must involve the captured committer index (upvar) and the proposal sender (argument)
-            eqs = [c for c in cl.live_calls() if c.name in ("eq", "ne")]
-            wired = False
-            for c in eqs:
-                deps = [cl.depends_on(a["p"][0])[0] for a in c.args if "p" in a]
-                if len(deps) == 2 and any(1 in d for d in deps) and any(2 in d for d in deps):
-                    wired = True
-            if table == want and wired:
-                okB = True
-            detail = str(table)
-        rep.check(okB, "non-admin-whitelist", "own-leaf-only", "update proposals must come from the committer itself (Sender::Member(idx) && idx == committer)",
-                  "the whitelist no longer requires every Update proposal to be the committer's own: %s" % detail, f.loc())
-        # (c) decision table of the predicate over its four observations
-        rows = {}
-        bad = None
-        for A_, B_, C_, D_ in itertools.product((0, 1), repeat=4):
-            def hook(cal, args, A_=A_, B_=B_, C_=C_, D_=D_):
-                nm = cal.get("name")
-                def src(v):
-                    s = repr(v)
-                    if "update_path_leaf_node" in s:
-                        return "path"
-                    if "update_proposals" in s:
-                        return "upd"
-                    if "queued_proposals" in s:
-                        return "queued"
-                    return None
-                a0 = args[0] if args else None
-                if nm in ("is_none", "is_some") and a0 is not None:
-                    w = src(a0)
-                    if w == "path":
-                        return ("int", A_ if nm == "is_none" else 1 - A_)
-                    if w == "upd":
-                        return ("int", B_ if nm == "is_none" else 1 - B_)
-                if nm == "all" and a0 is not None:
-                    w = src(a0)
-                    if w == "queued":
-                        return ("int", C_)
-                    if w == "upd":
-                        return ("int", D_)
-                if nm == "next" and a0 is not None and src(a0):
-                    return ("opaque", "call:next:" + src(a0) + "_update_proposals" if src(a0) == "upd" else "call:next", (a0,))
-                return None
-            ev = dtable.Evaluator(f, lambda v: None, lambda a, b: None, lambda bb, v, t: None, call_hook=hook)
-            try:
-                res = ev.run({l: ("param", "arg%d" % l, l) for l in range(1, f.nargs + 1)})
-                rows[(A_, B_, C_, D_)] = res[1] if res and res[0] == "int" else None
-            except dtable.Undecided as e:
-                bad = str(e)
+                bad = "%s on commit (path=%d, proposals=%s)" % (e, path, [x[0] for x in q])
                 break
-        if bad is None:
-            want = {k: int((not (k[0] and k[1])) and k[2] and k[3]) for k in rows}
-            diff = [k for k in rows if rows[k] != want[k]]
-            rep.check(not diff, "non-admin-whitelist", "decision-table",
-                      "accept iff (update path or update proposal present) and all proposals are Update and all updates are the committer's own (16 rows)",
-                      "whitelist decision table differs from the spec on rows (no_path,no_update,all_update_kind,all_own): %s" % diff, f.loc())
-        else:
+        if bad is not None:
             rep.violation("non-admin-whitelist", "decision-table", "whitelist predicate can no longer be enumerated: %s" % bad, f.loc())
+            continue
+        rep.extra["whitelist_worlds"] = len(rows)
+
+        def show(k):
+            return "path=%d [%s]" % (k[0], ", ".join(e[0] if e[0] != "Update" else "Update(%s%s)" % (e[1], "" if e[2] == "n/a" else ":" + e[2]) for e in k[1]))
+        # (a) which single proposal kinds a non-admin may commit (with an update path, so that only the kind matters)
+        kinds = sorted(set(e[0] for (pth, q), r in rows.items() if pth == 1 and len(q) == 1 and r == 1 for e in q))
+        rep.check(kinds == ["Update"], "non-admin-whitelist", "proposal-kinds", "a non-admin commit may only carry Update proposals (accepted kinds: %s)" % kinds,
+                  "the non-admin whitelist accepts more than Proposal::Update (accepted kinds: %s)" % kinds, f.loc())
+        # (b) whose Update proposals
+        own = sorted(set((e[1], e[2]) for (pth, q), r in rows.items() if len(q) == 1 and r == 1 for e in q if e[0] == "Update"))
+        rep.check(own == [("Member", "own")], "non-admin-whitelist", "own-leaf-only",
+                  "update proposals must come from the committer itself (accepted senders: %s)" % own,
+                  "the whitelist no longer requires every Update proposal to be the committer's own: accepted senders %s" % own, f.loc())
+        # (c) the whole table
+        diff = [k for k, r in rows.items() if r != whitelist_spec(*k)]
+        rep.check(not diff, "non-admin-whitelist", "decision-table",
+                  "accept iff (update path or update proposal present) and all proposals are Update and all updates are the committer's own (%d symbolic commits)" % len(rows),
+                  "whitelist decision differs from the spec on %d commit(s), e.g. %s" % (len(diff), "; ".join("%s -> %s" % (show(k), rows[k]) for k in diff[:4])), f.loc())
 
 
 def context_ok(prog, f, bb, test, scope, seen=None):
